@@ -21,7 +21,7 @@ func init() {
 	Register(&Rule{
 		ID:    "R-ISOMASK",
 		Doc:   "by constant evaluation: each separator test (u & A) == B constrains all 8 bits of every separator lane (A lane = 0xFF where B lane != 0); each XOR replace constant equals separator^'0' on separator lanes and 0 on data lanes; pow10's index interval fits its length; validate's 30-day months are {4,6,9,11}",
-		Props: []string{"C18"},
+		Props: []string{"C18", "C06"},
 		Min:   map[string]int{"C18": 8},
 		Run:   runIsoMask,
 	})
@@ -204,24 +204,24 @@ func runIsoMask(c *core.Ctx) []core.Obligation {
 			n := globalLiteralLen(c, isoPkg.Syntax, g.Name())
 			key := "table-index:" + g.Name()
 			if n < 0 {
-				b.und(key, c.InstrPos(ia), "cannot determine the length of "+g.Name())
+				b.addP([]string{"C18", "C06"}, core.Undecided, key, c.InstrPos(ia), "cannot determine the length of "+g.Name())
 				continue
 			}
 			// index = K - len(b)
 			sub, ok := ia.Index.(*ssa.BinOp)
 			if !ok || sub.Op != token.SUB {
-				b.und(key, c.InstrPos(ia), "index is not of the form K - len(b)")
+				b.addP([]string{"C18", "C06"}, core.Undecided, key, c.InstrPos(ia), "index is not of the form K - len(b)")
 				continue
 			}
 			k, ok1 := constInt(sub.X)
 			la, ok2 := lenArg(sub.Y)
 			if !ok1 || !ok2 {
-				b.und(key, c.InstrPos(ia), "index is not of the form K - len(b)")
+				b.addP([]string{"C18", "C06"}, core.Undecided, key, c.InstrPos(ia), "index is not of the form K - len(b)")
 				continue
 			}
 			lo, hi, excl := lenInterval(la, blk)
 			if lo == nil || hi == nil {
-				b.bad(key, c.InstrPos(ia), fmt.Sprintf("%s[%d-len(b)]: len(b) is not bounded on both sides at this point", g.Name(), k))
+				b.addP([]string{"C18", "C06"}, core.Violation, key, c.InstrPos(ia), fmt.Sprintf("%s[%d-len(b)]: len(b) is not bounded on both sides at this point", g.Name(), k))
 				continue
 			}
 			l, h := lo.Int64(), hi.Int64()
@@ -233,9 +233,9 @@ func runIsoMask(c *core.Ctx) []core.Obligation {
 			}
 			imin, imax := k-h, k-l
 			if imin < 0 || imax >= int64(n) {
-				b.bad(key, c.InstrPos(ia), fmt.Sprintf("%s has %d entries but is indexed with %d-len(b) where len(b) ∈ [%d,%d]: index range [%d,%d] leaves the table (panic on a %d-byte input)", g.Name(), n, k, l, h, imin, imax, l))
+				b.addP([]string{"C18", "C06"}, core.Violation, key, c.InstrPos(ia), fmt.Sprintf("%s has %d entries but is indexed with %d-len(b) where len(b) ∈ [%d,%d]: index range [%d,%d] leaves the table (panic on a %d-byte input)", g.Name(), n, k, l, h, imin, imax, l))
 			} else {
-				b.ok(key, c.InstrPos(ia), fmt.Sprintf("len(b) ∈ [%d,%d] ⇒ index ∈ [%d,%d] within %d entries", l, h, imin, imax, n))
+				b.addP([]string{"C18", "C06"}, core.Discharged, key, c.InstrPos(ia), fmt.Sprintf("len(b) ∈ [%d,%d] ⇒ index ∈ [%d,%d] within %d entries", l, h, imin, imax, n))
 			}
 		}
 	}
